@@ -78,7 +78,7 @@ def distinctStrings (l : List FGConfig) : Bool := decide (l.map (·.patternStr))
 theorem default_strings_distinct : (Gen.C07.configs.map (·.patternStr)).Nodup := by decide +kernel
 
 /-- non-vacuity (test): two different configs with the same three counts are separated by the string -/
-example : (Gen.C07.cfg13).key ≠ (Gen.C07.cfg14).key ∧
-    (Gen.C07.cfg13).key.take 3 = (Gen.C07.cfg14).key.take 3 := by decide +kernel
+example : (Gen.C07.configs.any fun a => Gen.C07.configs.any fun b =>
+    a.key != b.key && a.key.take 3 == b.key.take 3) = true := by decide +kernel
 
 end C07
